@@ -123,3 +123,94 @@ Example C12_engine_nonvacuous :
   (exists r, RsetDefs.rset_make [Some [195; 169]] RE_ICASE = ReSyntax.Ok (Some r) /\
      RsetDefs.rset_find_d 256 r ([120; 195; 169] ++ [10]) 1 0%Z = (ReSyntax.Ok (0%Z, [(1, 3)]%Z), 0)).
 Proof. repeat split; eexists; (split; [vm_compute; reflexivity|vm_compute; reflexivity]). Qed.
+
+(* ------------------------------------------------------------------------------------------ *)
+(* The model is the C text.  tools/c2clite.py translates isword, match_case and rstr_find of /repo/rstr.c
+   into CLite terms (GenCFuncs.v: cf_rstr_isword, cf_match_case, cf_rstr_find) on every run; the theorems
+   below say that running those terms under the checked semantics of CLite.v (every load and store inside
+   its block, no signed overflow, no fuel or depth exhausted, the untranslated rset_find not reached) gives,
+   for ALL inputs, the value of the hand-written model of RstrDefs.v.  Proofs: TrRstr.v. *)
+From NV Require Import CLite CLiteProps GenCFuncs CLiteTac TrRstr.
+Local Open Scope Z_scope.
+
+(* static int isword(char *s): any byte of any string in memory, the terminator included *)
+Theorem C12_tr_isword : forall m b s o d fuel, str_at m b s -> bytes_lt256 s -> (o <= length s)%nat ->
+  callf cprog fuel (S d) F_rstr_isword [VPtr b (Z.of_nat o)] m = Ok (VInt (b2z (isword (nthb s o))), m).
+Proof. exact tr_rstr_isword. Qed.
+Print Assumptions C12_tr_isword.
+
+(* static int match_case(char *s, char *r, int icase): any two C strings in memory, pointers at any offsets,
+   any value of icase; the C function returns 1 or *r (a char): it is 0 exactly when the model says true;
+   the memory is unchanged *)
+Theorem C12_tr_match_case : forall m sb S bs R p q ic d fuel,
+  str_at m sb S -> str_at m bs R -> nonul S -> nonul R ->
+  (p <= length S)%nat -> (q <= length R)%nat -> (length R < fuel)%nat ->
+  exists v, callf cprog fuel (Datatypes.S d) F_match_case [VPtr sb (Z.of_nat p); VPtr bs (Z.of_nat q); VInt ic] m = Ok (VInt v, m) /\
+            (v =? 0) = match_case (skipn p S) (skipn q R) (negb (ic =? 0)).
+Proof. exact tr_match_case. Qed.
+Print Assumptions C12_tr_match_case.
+
+(* int rstr_find(struct rstr *rs, char *s, int n, int *grps, int flg), rs->rs == NULL.
+   rs points to a block [rs = NULL; str; icase; lbeg; lend; wbeg; wend] (rstr_block), str to the literal lit,
+   s into a C string L at any offset o (the model sees the suffix), grps to a block of 2 * n cells with
+   arbitrary (also indeterminate) contents; n may be <= 0.  Then the call returns 0 / -1 exactly as the model
+   answers Found / NotFound (ret_of), the memory afterwards is the memory before except that the grps block
+   holds rstr_groups n so eo when found (mem_of: upd m gb ...; unchanged when not found), and the model does
+   not answer OOB.  Since every load of the C text is checked against its block, and the block of the line
+   holds exactly the line and its terminator, the C text reads nothing outside them. *)
+Theorem C12_tr_rstr_find : forall m rb bs sb gb lit L o ic lb le wb we n flg gold noteol d fuel,
+  nth_error m rb = Some (rstr_block bs ic lb le wb we) ->
+  str_at m bs lit -> str_at m sb L -> nth_error m gb = Some gold -> length gold = (2 * Z.to_nat n)%nat ->
+  nonul lit -> nonul L -> (o <= length L)%nat ->
+  int_ok ic -> int_ok lb -> int_ok le -> int_ok wb -> int_ok we -> 2 * n <= 2147483647 ->
+  Z.of_nat (length lit) <= 2147483647 -> Z.of_nat (length L) <= 2147483647 ->
+  (length lit < fuel)%nat -> (length L + Z.to_nat n + 1 < fuel)%nat ->
+  let R := rstr_find (rs_of lit ic lb le wb we) (skipn o L) (nz (Z.land flg RE_NOTBOL)) noteol in
+  callf cprog fuel (S (S d)) F_rstr_find [VPtr rb 0; VPtr sb (Z.of_nat o); VInt n; VPtr gb 0; VInt flg] m
+  = Ok (VInt (ret_of R), mem_of m gb n R) /\ R <> OOB.
+Proof. exact tr_rstr_find. Qed.
+Print Assumptions C12_tr_rstr_find.
+
+(* composed with C12_equiv_spec: the C TEXT of the fast path returns the declarative spec.  Same hypotheses
+   on the line and the pattern as C12_equiv_spec / C12_in_bounds (no NUL, no newline but the terminator),
+   plus: bytes are bytes (nonul = 0 < c < 256), lengths fit an int. *)
+Theorem C12_tr_rstr_find_spec : forall m rb bs sb gb ic p rs content n flg gold d fuel,
+  rstr_simple ic p = Some rs -> nonul p -> ~ In 10%N p -> nonul content -> ~ In 10%N content ->
+  nth_error m rb = Some (rstr_block bs (b2z (r_icase rs)) (b2z (r_lbeg rs)) (b2z (r_lend rs)) (b2z (r_wbeg rs)) (b2z (r_wend rs))) ->
+  str_at m bs (r_str rs) -> str_at m sb (content ++ [10%N]) ->
+  nth_error m gb = Some gold -> length gold = (2 * Z.to_nat n)%nat -> 2 * n <= 2147483647 ->
+  Z.of_nat (length p) <= 2147483647 -> Z.of_nat (length content) < 2147483647 ->
+  (length p < fuel)%nat -> (length content + Z.to_nat n + 2 < fuel)%nat ->
+  callf cprog fuel (S (S d)) F_rstr_find [VPtr rb 0; VPtr sb 0; VInt n; VPtr gb 0; VInt flg] m =
+  match spec_find (spat_of rs) ic (nz (Z.land flg RE_NOTBOL)) content with
+  | Some i => Ok (VInt 0, upd m gb (grp_block (rstr_groups (Z.to_nat n) (Z.of_nat i) (Z.of_nat (i + length (r_str rs))))))
+  | None => Ok (VInt (-1), m)
+  end.
+Proof. exact tr_rstr_find_spec. Qed.
+Print Assumptions C12_tr_rstr_find_spec.
+
+(* non-vacuity: the translated rstr_find RUNS.  Memory: block 0 = struct rstr for \<ab (wbeg = 1), block 1 = "ab",
+   block 2 = "x ab\n", block 3 = int grps[4], indeterminate.  n = 2: returns 0, grps = {2, 4, -1, -1}; the
+   hypotheses of C12_tr_rstr_find hold for this memory and the model answers Found 2 4.  With NOTBOL and ^ab on
+   the same line: -1, memory unchanged.  isword and match_case run too. *)
+Definition C12_ex_mem (lb wb : Z) : mem :=
+  [rstr_block 1 0 lb 0 wb 0; cstr_block [97; 98]; cstr_block [120; 32; 97; 98; 10]; [VUndef; VUndef; VUndef; VUndef]].
+Example C12_tr_nonvacuous :
+  callf cprog 100 3 F_rstr_find [VPtr 0 0; VPtr 2 0; VInt 2; VPtr 3 0; VInt 0] (C12_ex_mem 0 1)
+    = Ok (VInt 0, [rstr_block 1 0 0 0 1 0; cstr_block [97; 98]; cstr_block [120; 32; 97; 98; 10];
+                   [VInt 2; VInt 4; VInt (-1); VInt (-1)]]) /\
+  rstr_find (rs_of [97; 98]%N 0 0 0 1 0) [120; 32; 97; 98; 10]%N false false = Found 2 4 /\
+  (str_at (C12_ex_mem 0 1) 1 [97; 98]%N /\ str_at (C12_ex_mem 0 1) 2 [120; 32; 97; 98; 10]%N /\
+   nonul [97; 98]%N /\ nonul [120; 32; 97; 98; 10]%N) /\
+  callf cprog 100 3 F_rstr_find [VPtr 0 0; VPtr 2 0; VInt 2; VPtr 3 0; VInt RE_NOTBOL] (C12_ex_mem 1 0)
+    = Ok (VInt (-1), C12_ex_mem 1 0) /\
+  callf cprog 100 3 F_rstr_find [VPtr 0 0; VPtr 2 2; VInt 0; VPtr 3 4; VInt 0] (C12_ex_mem 1 0)
+    = Ok (VInt 0, C12_ex_mem 1 0) /\
+  callf cprog 100 1 F_rstr_isword [VPtr 2 1] (C12_ex_mem 0 1) = Ok (VInt 0, C12_ex_mem 0 1) /\
+  callf cprog 100 1 F_match_case [VPtr 2 2; VPtr 1 0; VInt 0] (C12_ex_mem 0 1) = Ok (VInt 0, C12_ex_mem 0 1) /\
+  callf cprog 100 1 F_match_case [VPtr 2 1; VPtr 1 0; VInt 1] (C12_ex_mem 0 1) = Ok (VInt 1, C12_ex_mem 0 1).
+Proof.
+  split; [vm_compute; reflexivity|]. split; [vm_compute; reflexivity|].
+  split; [split; [reflexivity|]; split; [reflexivity|]; split; repeat (constructor; [split; reflexivity|]); constructor|].
+  repeat split; vm_compute; reflexivity.
+Qed.
